@@ -32,6 +32,7 @@ def run(ctx: Ctx):
     from .. import memo as _memo
 
     ctx.section(_memo.check_memo_keys, ctx, ('compiler.', 'qcircuit.qcircuitenhanced', 'qcircuit.qcircuit.', 'qlassfun.QlassF.compile', 'qlassfun.QlassF.circuit'))
+    ctx.section(c03.check_uncompute, ctx, False)
     c03.check_uncompute_all(ctx)
     c03.check_keep_flow(ctx)
     c03.check_x_family(ctx)
